@@ -313,6 +313,9 @@ def run(ctx, sm, facts):
     ctx.rule('C20.a', 'decoder co-simulated with a ready/valid producer over command streams x pacings: actions == stream meaning')
     ctx.rule('C20.c', 'pauses of any length inside a command: the waiting state is a fixpoint of an idle edge, or every timer threshold reachable by waiting decodes the same')
     ctx.rule('C20.b', 'encoder co-simulated with a ready/valid consumer over values x digit counts x pacings: text == =<HEX>!')
+    ctx.rule('C20.d', 'instance isolation in the codec file (no class-level container / mutable default / memoised method)')
+    from ..leafrules import shared_instance_state
+    shared_instance_state(ctx, facts, 'C20.d', [REL])
     for cn in ('CMDRequest', 'CMDResponse'):
         c = facts.cls(cn, REL, required=False)
         if c is None or 'clock' not in c.methods:
